@@ -32,6 +32,9 @@ QUICK = [
                 "MaxN": "1", "MaxStk": "1", "MaxStmts": "2"}, None),      # let name :: constraint = value
     ("funcbody", {"Fam": "<- FamFuncBody", "LitPool": "<- Lits2", "Names": "<- Names2", "SigPool": "<- Sigs2",
                   "BinOps": "<- OpsFew", "MaxN": "4", "MaxStk": "2", "MaxCtx": "2", "MaxStmts": "2"}, None),   # define, then call
+    ("moduse", {"Fam": "<- FamModUse", "LitPool": "<- Lits2", "Names": "<- Names1", "BinOps": "<- Ops1",
+                "FldNames": "<- FldsP", "CastTys": "<- CastsIS", "Prelude": "<- PreMod", "MaxN": "4", "MaxStk": "2",
+                "MaxStmts": "1"}, None),         # the instance of a module as an operand
     ("cmpdata", {"Fam": "<- FamCmpData", "LitPool": "<- Lits2", "Names": "<- Names1", "BinOps": "<- OpsEqNe",
                  "FldNames": "<- Flds2", "MaxN": "5", "MaxStk": "2", "MaxStmts": "1"}, None),   # == / != of lists and tuples
     ("funcsel", {"Fam": "<- FamFuncSel", "LitPool": "<- Lits1", "Names": "<- Names2", "SigPool": "<- SigsTup",
